@@ -137,8 +137,8 @@ func vInsertionSort(n int, less func(i, j int) bool, swap func(i, j int)) {}
 
 func vNative() bool { return true }
 
-// natively the other goroutines get 30 ms
-func vSettle() { vtime.Sleep(30 * vtime.Millisecond) }
+// natively the other goroutines get 150 ms (generous: replays may share the machine with 11 other jobs)
+func vSettle() { vtime.Sleep(150 * vtime.Millisecond) }
 
 var vStart = vtime.Now()
 
